@@ -760,7 +760,7 @@ impl defmt::Format for TLVElement<'_> {
 pub struct TLVSequence<'a>(pub(crate) &'a [u8]);
 
 impl<'a> TLVSequence<'a> {
-    const EMPTY: Self = Self(&[]);
+    pub(crate) const EMPTY: Self = Self(&[]);
 
     /// Return an iterator over the `TLVElement` instances in this `TLVSequence`.
     #[inline(always)]
@@ -1262,11 +1262,20 @@ impl<'a> Iterator for TLVSequenceIter<'a> {
     type Item = Result<TLVElement<'a>, Error>;
 
     fn next(&mut self) -> Option<Self::Item> {
-        self.0
+        let result = self
+            .0
             .current()
-            .and_then(|current| self.advance().map(|_| current))
-            .map(|elem| (!elem.is_empty()).then_some(elem))
-            .transpose()
+            .and_then(|current| self.advance().map(|_| current));
+
+        match result {
+            Ok(elem) => (!elem.is_empty()).then_some(Ok(elem)),
+            Err(err) => {
+                // Do not report the same error forever: a `for` loop which does not
+                // stop at the first error would otherwise never end
+                self.0 = TLVSequence::EMPTY;
+                Some(Err(err))
+            }
+        }
     }
 }
 
